@@ -17,7 +17,7 @@ RULE = ("case = (mode a|b|c, configuration, two history seeds); non-trivial = >=
         ">= 1 was answered from >= 2 tree pieces (a, b) / >= 5 probes differ (c); distinct = distinct case keys")
 ASSUMPTIONS = ["dyadic mode: probes lie on the tolerance grid (times are quantised to tol by design)"]
 REQUIRED_COUNTERS = ["a_probes", "b_probes", "b_multi_piece", "c_probes", "b_with_A", "b_tree_wrapper",
-                     "b_histories_differ"]
+                     "b_histories_differ", "point_probes"]
 CASE_TIMEOUT = 900
 
 
@@ -78,10 +78,16 @@ def run_case(case):
             import numpy as np
             np.random.seed(cfg2["entropy"] % (2 ** 31))
         bm2, base2, meta2 = bmgen.build(cfg2, step_hint=s1 if mode != "b" else s2)
-        for (a, b) in q1:
-            bm1(*bmgen.to_frame(cfg, a, b), **fl)
-        for (a, b) in q2:
-            bm2(*bmgen.to_frame(cfg, a, b), **fl)
+        points_ok = cfg["wrapper"] in ("interval", "path", "tree")
+        for bmx, qx, rx in ((bm1, q1, r1), (bm2, q2, r2)):
+            for (a, b) in qx:
+                bmx(*bmgen.to_frame(cfg, a, b), **fl)
+                if points_ok and rx.random() < 0.05:
+                    # point evaluations are part of a history as well (for twins with the same history seed both
+                    # objects see the same ones; in dyadic mode they must not matter)
+                    bmx(bmgen.pick_time(cfg, rx, 0.6))
+            if points_ok:
+                bmx(bmgen.pick_time(cfg, rx, 1.0))
         if mode == "b" and (q1 != q2):
             cnt["b_histories_differ"] = 1
         pr = _probes(cfg, random.Random(case["p"]))
@@ -98,6 +104,11 @@ def run_case(case):
             if mode == "b" and cfg["wrapper"] == "tree":
                 cnt["b_tree_wrapper"] = cnt.get("b_tree_wrapper", 0) + 1
             same = all((x is None and y is None) or torch.equal(x, y) for x, y in zip(o1, o2))
+            if points_ok and mode in ("a", "b") and cnt[f"{mode}_probes"] % 4 == 0:
+                pa, pb = bm1(b), bm2(b)
+                cnt["point_probes"] = cnt.get("point_probes", 0) + 1
+                if not torch.equal(pa, pb):
+                    same = False
             if mode in ("a", "b") and not same:
                 names = ["W"] + (["U"] if fl["return_U"] else []) + (["A"] if fl["return_A"] else [])
                 bad = [n for n, x, y in zip(names, o1, o2) if x is not None and not torch.equal(x, y)]
